@@ -15,6 +15,7 @@ import NV.C06.Counters
 import NV.C06.Strings
 import NV.C06.Spec
 import NV.C06.Oracle
+import NV.C06.Weights
 
 namespace NV.C06
 
@@ -370,6 +371,19 @@ theorem add_never_inplace (k : Kind) (hk : k.isStr = true) (r : Nat) :
     · omega
     · split at this <;> omega
 
+/-- `v[d] = v[s] + v[t]` joins two pushed copies: the left block has one more holder, it is never reused -/
+theorem join_on_copy_never_inplace (k : Kind) (hk : k.isStr = true) (r : Nat) :
+    NV.Gen.C06.joinInPlace (k == .mstr) (incRef k r 1) = false := by
+  cases hx : NV.Gen.C06.joinInPlace (k == .mstr) (incRef k r 1) with
+  | false => rfl
+  | true =>
+    have := (joinInPlace_sole _ _ hx).2
+    unfold incRef at this
+    rw [if_pos hk] at this
+    split at this
+    · omega
+    · split at this <;> omega
+
 /-- non-vacuity: the single holder of a run-time string appends in place; with a second holder a copy is made and the
     other holder keeps its text -/
 example : inPlaceTarget (match run St.init [.newmstr 0 "ab"] with | .ok s => s | .error _ => St.init) (.sappend 0 "7")
@@ -400,6 +414,26 @@ theorem counters_exact (ops : List Op) (s : St) (h : run St.init ops = .ok s) :
   ⟨run_count cArrays ops St.init s h (CountOK_init cArrays rfl (by decide)),
    run_count cMappings ops St.init s h (CountOK_init cMappings rfl (by decide)),
    run_count cObjects ops St.init s h (CountOK_init cObjects rfl (by decide))⟩
+
+/-- **sizes_exact** (oracle clauses `leak counter=total_array_size` / `total_mapping_nodes`): after every history, with no
+    hypothesis, total_array_size is the sum of `arrBytes (number of elements)` over the live arrays and
+    total_mapping_nodes the sum of the node counts of the live mappings (`ws` sums the contribution `wc` of every cell:
+    0 for deallocated cells and for other kinds). -/
+theorem sizes_exact (ops : List Op) (s : St) (h : run St.init ops = .ok s) :
+    s.stats.arrayBytes = ws wBytes s.heap ∧ s.stats.mapNodes = ws wNodes s.heap :=
+  ⟨run_w wBytes ops St.init s h (WOK_init wBytes rfl (by intro n; simp [wBytes])),
+   run_w wNodes ops St.init s h (WOK_init wNodes rfl (by intro n; simp [wNodes]))⟩
+
+/-- what a cell contributes: a live array its accounted bytes, a live mapping its nodes -/
+theorem wc_meaning (c : Cell) :
+    wc wBytes c = (if c.live = true ∧ c.kind = .arr then arrBytes c.items.length else 0) ∧
+    wc wNodes c = (if c.live = true ∧ c.kind = .map then ((c.items.length / 2 : Nat) : Int) else 0) := by
+  unfold wc wBytes wNodes
+  by_cases hl : c.live = true <;> by_cases ha : c.kind = .arr <;> by_cases hm : c.kind = .map <;> simp [hl, ha, hm]
+
+example : ∃ s, run St.init [.newarr 0 3, .newmap 1, .mset 1 0 0, .mset 1 1 0, .newarr 2 1, .free 2] = .ok s ∧
+    s.stats.arrayBytes = arrBytes 3 ∧ s.stats.mapNodes = 2 ∧ ws wNodes s.heap = 2 := by
+  refine ⟨_, rfl, ?_, ?_, ?_⟩ <;> decide
 
 theorem lc_zero_of_all (k0 : Kind) (h : List Cell) (hall : ∀ cell ∈ h, cell.live = true → cell.kind ≠ k0) : lc k0 h = 0 := by
   unfold lc
